@@ -40,6 +40,19 @@ impl<F: CpuLogpFunc> CpuMath<F> {
     }
 }
 
+/// Verification hook (only compiled with `--cfg nuts_rs_verif`): construct a `CpuMath` with an
+/// explicitly chosen `pulp::Arch` instead of running CPU feature detection.
+#[cfg(nuts_rs_verif)]
+impl<F: CpuLogpFunc> CpuMath<F> {
+    pub fn new_with_arch(logp_func: F, arch: pulp::Arch) -> Self {
+        Self {
+            logp_func,
+            arch,
+            lowrank_scratch: Col::zeros(0),
+        }
+    }
+}
+
 #[non_exhaustive]
 #[derive(Error, Debug)]
 pub enum CpuMathError {
@@ -978,3 +991,7 @@ impl<M: CpuLogpFunc + Clone> Clone for CpuMath<M> {
         }
     }
 }
+
+#[cfg(all(kani, nuts_rs_verif))]
+#[path = "/verif/kani/k_var.rs"]
+mod verif_kani;
